@@ -58,6 +58,8 @@ def _twod(cfg, B):
         d0 = cm.build2d(B, cfg)
         cons = [c.copy() for c in d['cons']]
         fdm = B.fd
+        d['rhs'].rhs(fdm.field.fdata(d['model'], d['mesh'], [2 * c for c in d0['cons']]))       # another (admissible) field first, same time
+        del calls[:]
         R = [r.copy() for r in d['rhs'].rhs(fdm.field.fdata(d['model'], d['mesh'], [c.copy() for c in cons]))]
         R0 = [r.copy() for r in d0['rhs'].rhs(fdm.field.fdata(d0['model'], d0['mesh'], [c.copy() for c in cons]))]
     except Exception as e:
@@ -142,6 +144,11 @@ def harness(cfg, B):
         rhs0 = fd.modeldisc.fvm(model0, mesh, num0, numflux=flux, bcL={'type': 'per'}, bcR={'type': 'per'})
         prim, cons = cm.make_state(B, 'euler1d' if m != 'shallowwater' else m, model0, n)
         cons = [c.copy() for c in cons]
+        # the operator is evaluated first on ANOTHER field at the same time (what integrator stages, Jacobians and monitors do): the
+        # sources of the evaluation under test must be those of its own field
+        _, decoy = cm.make_state(B, 'euler1d' if m != 'shallowwater' else m, model0, n, tag='d')
+        rhs.rhs(fd.field.fdata(model, mesh, [c.copy() for c in decoy]))
+        del calls[:]
         R = [r.copy() for r in rhs.rhs(fd.field.fdata(model, mesh, cons))]
         R0 = [r.copy() for r in rhs0.rhs(fd.field.fdata(model0, mesh, cons))]
     except Exception as e:
